@@ -699,8 +699,14 @@ func runC13(c *Ctx) {
 					continue
 				}
 				k := valKey(cmp.X)
-				if cmp.Op == token.NEQ && isNilConst(cmp.Y) && strings.HasSuffix(k, ".err") && strings.Contains(k, "packet") {
-					if !reachFromBlock(b.Succs[0], isLoopHeadStart(l), nil) {
+				// the edge on which packet.err is known to be non-nil (`!= nil` taken, or `== nil` not taken: the
+				// switch form) must not lead back to the loop head
+				if (cmp.Op == token.NEQ || cmp.Op == token.EQL) && isNilConst(cmp.Y) && strings.HasSuffix(k, ".err") && strings.Contains(k, "packet") {
+					nonNil := b.Succs[0]
+					if cmp.Op == token.EQL {
+						nonNil = b.Succs[1]
+					}
+					if !reachFromBlock(nonNil, isLoopHeadStart(l), nil) {
 						stops = true
 					}
 				}
